@@ -17,6 +17,13 @@ EXPECTED = {
     "t_dataclass": "1 + u", "t_dataclass_replace": "3 + u", "t_dict_set_ops": "21*u", "t_enum": "1 + 2*u", "t_functools": "12 + 3*u",
     "t_global_state": "1 + u", "t_itertools": "41*u", "t_lru": "6*u", "t_match": "30*u", "t_math": "18 + 2*u", "t_namedtuple": "5 + u",
     "t_numpy_basic": "83/2 + abs(-u) + max(u, 2*u, 3*u) + 30*u + 32*u^2", "t_slots_property": "19", "t_sorted_minmax": "117/2*u",
+    # feat3.py: Python / numpy semantics traps (late-binding closures, defaults evaluated once, class-level mutables, truthiness,
+    # integer arithmetic, precedence, dict keys and order, views versus copies, in-place versus out-of-place, broadcasting, lru_cache)
+    "t_bool_masks": "655*u", "t_broad_except": "-2102*u", "t_class_level_mutable": "3231211*u", "t_dict_keys_order": "21146*u",
+    "t_inplace_alias": "1513246*u", "t_int_arith": "183*u", "t_late_binding": "21*u", "t_lru_cache": "90033*u", "t_mutable_default": "3121*u",
+    "t_numpy_dtype": "153*u", "t_or_default": "49*u", "t_precedence": "416*u", "t_shadow_and_scope": "37*u", "t_string_names": "22124435*u",
+    "t_truthiness": "7981*u", "t_views": "1100*u", "t_views_containers": "33*u", "t_views_iter_flat": "67*u", "t_views_rows_cols": "208*u",
+    "t_ravel_contiguity": "1132*u",
     "t_star_kwargs": "21*u", "t_lazy_interleave": "51*u", "t_string_ops": "50*u", "t_try_finally": "111*u", "t_walrus_fstring": "3 + 11*u", "t_while_forelse": "13*u",
 }
 
@@ -26,11 +33,12 @@ sys.path.insert(0, %r)
 from yadsa import model, symeval as S, algebra as A
 from yadsa.selftest.features import EXPECTED
 proj = model.project()
-m = proj.module("yadism.feat")
+mods = [proj.module("yadism.feat"), proj.module("yadism.feat3")]
 u = A.sym("u", True)
 bad = 0
 for name, exp in sorted(EXPECTED.items()):
     ev = S.Evaluator(proj, lenient_ext=False)
+    m = [m_ for m_ in mods if name in m_.functions][0]
     try:
         got = A.canon(S.num_norm(ev.call(S.FuncVal(ev, m.functions[name]), [u], {})))
         if got != exp:
